@@ -85,6 +85,8 @@ def run(an: Analysis, rep):
     rep.stats.update(an.stats(interps))
     rep.run(r053, an, rep)
     rep.run(r05i, an, rep)
+    from .common import old_interpreter_rule
+    rep.run(old_interpreter_rule, an, rep, "R05.V", ["normalize", "to_code", "from_code"])
     from .common import SharedRules
     from . import c03
     from . import c02, c10
